@@ -22,7 +22,7 @@ LEVEL = "fault_enumeration"
 ENGINE = "sansio"
 BUDGET = {"quick": (400, 20), "thorough": (20000, 240)}
 WORKERS = {"quick": 4, "thorough": 16}
-REQUIRED = ["order", "final", "fault.client_cut", "fault.server_cut", "fault.connect_refused", "policy.kill", "policy.set_response", "policy.stream"]
+REQUIRED = ["h2.cases", "order", "final", "fault.client_cut", "fault.server_cut", "fault.connect_refused", "policy.kill", "policy.set_response", "policy.stream"]
 TECHNIQUE = "runtime monitoring: fault-position sweep on the sans-io driver + per-flow hook-order automaton"
 RULE = (
     "case = (spec of 1-3 HTTP/1 requests, fault kind and position, per-hook addon action vector, option toggles); quick samples offsets, "
@@ -32,7 +32,7 @@ RULE = (
 ASSUMPTIONS = [
     "setting a response and enabling streaming on the same flow is excluded (the code refuses it explicitly)",
     "CONNECT and upgraded (101) flows are excluded from the final-outcome clause as the property states",
-    "HTTP/1 workloads (HTTP/2 lifecycle is exercised by the C05 workload under the same automaton)",
+    "every 4th worker runs the HTTP/2 leg: the C05 workload generator (interleaved streams, RST_STREAM from both sides, truncated h1 origins, streaming) under the same automaton",
 ]
 LEVEL_TEXT = (
     "Fault enumeration: for generated conversations the disconnect/truncation offset, the failing connect and the addon action at every "
@@ -152,10 +152,70 @@ def pos_class(stream: bytes, off: int):
     return "body-or-later"
 
 
+class _Shim:
+    """Lets the C05 HTTP/2 workload generator run under C03: same rng/tier, C05's own monitors are discarded."""
+
+    def __init__(self, ctx):
+        self._ctx = ctx
+        self.rng = ctx.rng
+        self.tier = ctx.tier
+        self.worker = ctx.worker
+        self.nworkers = ctx.nworkers
+
+    def count(self, *a, **k):
+        pass
+
+    def seen(self, *a, **k):
+        pass
+
+    def violation(self, *a, **k):
+        pass
+
+    def case(self, *a, **k):
+        pass
+
+
+def run_h2(ctx, opts):
+    """HTTP/2 lifecycle leg: the C05 workload (2-12 interleaved streams, client/origin RST_STREAM, truncated h1 origins,
+    streaming, MAX_CONCURRENT_STREAMS changes, h2->h2 / h2->h1 / h1->h2) is executed and the C03 automaton runs on its hook log."""
+    from checks import c05
+
+    old_ka = opts.http2_ping_keepalive
+    opts.update(http2_ping_keepalive=0)
+    captured = {}
+    c05.DEBUG = lambda loc: captured.update(d=loc["d"], topo=loc["topo"], mode=loc["mode"], streams=loc["streams"], server_rst_tags=loc["server_rst_tags"])
+    try:
+        for i in ctx.cases():
+            captured.clear()
+            shim = _Shim(ctx)
+            try:
+                c05.run_case(shim, opts)
+            except Exception as e:
+                ctx.count("h2.generator_errors")
+                continue
+            d = captured.get("d")
+            if d is None or d.budget_exceeded:
+                ctx.count("inconclusive_cases")
+                continue
+            ctx.count("h2.cases")
+            for e in d.exceptions:
+                ctx.seen("layer_exceptions", f"{e[0]}@{e[1]}")
+            n_rst = sum(1 for s_ in captured["streams"] if s_.get("rst_at") is not None)
+            witness = {"leg": "h2", "topo": captured["topo"], "mode": captured["mode"], "client_rst_streams": n_rst, "origin_rst": len(captured["server_rst_tags"]), "all_hooks": d.hook_names()[:120], "exceptions": [e[:2] for e in d.exceptions]}
+            seqs = check_lifecycle(ctx, d, witness)
+            sig = ("h2", captured["topo"], captured["mode"].split(":")[0], min(n_rst, 3), min(len(captured["server_rst_tags"]), 3), tuple(sorted(set(seqs)))[:6])
+            ctx.case(sig, bool(n_rst or captured["server_rst_tags"]), {"leg": "h2", "topo": captured["topo"], "flows": seqs[:6]})
+    finally:
+        c05.DEBUG = None
+        opts.update(http2_ping_keepalive=old_ka)
+
+
 def run(ctx):
     tctx, _ = sansio.addon_context()
     opts = tctx.options
     defaults = {k: getattr(opts, k) for k in ("body_size_limit", "stream_large_bodies", "store_streamed_bodies")}
+    if ctx.worker % 4 == 3 and ctx.only_case is None or (ctx.only_case is not None and ctx.worker % 4 == 3):
+        return run_h2(ctx, opts)
     try:
         for i in ctx.cases():
             r = ctx.rng
